@@ -76,6 +76,21 @@ class TheCheck(Check):
                     x = bytes(rng.choice(qa) for _ in range(rng.randrange(1, 24)))
                     qops.append("query %s %02x %02x" % (hexs(x), e, sp))
         sts.append(Stream("query-separators", qops))
+        # tokens and lengths taken from the CURRENT qencode.c (string literals / character constants; integer
+        # constants after preprocessing): a decoder or the query parser that treats one spelling or one length
+        # specially meets it at the start, at the end, doubled, after '%' and as name / value of first and later pairs
+        dic = [t for t in vlib.source_dictionary(["src/utilities/qencode.c"]) if 0 not in t]
+        multi = [t for t in dic if len(t) >= 2][:40]
+        sd = []
+        for t in multi + [b"%", b"+", b"=", b"&"]:
+            for x in (t, t + b"%", b"%" + t, t + t, b"a" + t, t + b"=" + t + b"&" + t + b"=" + t, b"a=b&" + t + b"x=" + t):
+                sd += ["urldec " + hexs(x), "hexdec " + hexs(x), "b64dec " + hexs(x), "query %s 3d 26" % hexs(x), "makeword %s 3d" % hexs(x)]
+        for n in [n for n in vlib.source_numbers(["src/utilities/qencode.c"]) if n <= 70000]:
+            for L in (n - 1, n, n + 1):
+                sd += ["urldec " + hexs(b"a" * L), "urldec " + hexs((b"%41" * L)[:L]), "urldec " + hexs(b"+" * (L - 1) + b"%"),
+                       "hexdec " + hexs((b"4a" * L)[:L]), "b64dec " + hexs((b"QUJD" * L)[:L]), "b64dec " + hexs((b"QUJD" * L)[:L - 1] + b"="),
+                       "query %s 3d 26" % hexs(b"k=" + b"v" * L), "query %s 3d 26" % hexs((b"a=1&" * L)[:L])]
+        sts.append(Stream("source-dictionary", sd, note="%d multi-byte tokens, lengths around the constants of the current source" % len(multi)))
         # the query text lives in the destination table and a pair re-defines the entry that holds it: the
         # stored text is freed by that put - the parser must not be reading it (exactly sized blocks, ASan)
         al = []
